@@ -215,8 +215,11 @@ impl<T: CloseValue> Slot<T> {
     ///
     /// Returns a mutable reference to the inner data if its guard didn't panic, or else None
     pub async fn wait_for_data(&mut self) -> &mut Option<T::Closed> {
-        if let Some(rx) = self.rx.take() {
+        // keep the receiver in place until the value has arrived: dropping this future while it is
+        // pending must not lose the channel
+        if let Some(rx) = self.rx.as_mut() {
             self.data = rx.wait_for_value().await;
+            self.rx = None;
         }
         &mut self.data
     }
@@ -236,8 +239,8 @@ impl<T: CloseValue> CloseValue for Slot<T> {
         match (self.data, self.rx) {
             (Some(data), _) => Some(data),
             (_, Some(rx)) => rx.take_value(),
-            // TODO: refactor to enum to avoid this branch
-            _ => unreachable!("cannot enter this state"),
+            // `wait_for_data` ran: its guard panicked, or the data was taken out through the returned reference
+            (None, None) => None,
         }
     }
 }
@@ -264,8 +267,8 @@ impl<T> Waiting<T> {
     ///
     /// Returns `Some(T)` if the value is received, or `None` if the sender
     /// was dropped without sending a value.
-    async fn wait_for_value(self) -> Option<T> {
-        self.rx.await.ok()
+    async fn wait_for_value(&mut self) -> Option<T> {
+        (&mut self.rx).await.ok()
     }
 }
 
